@@ -101,7 +101,10 @@ func hsAcceptSetup(s *rt.Sim, tier string) func() {
 		ncfg.Jitter = 0
 		pair := NewPair(ncfg)
 		co := drawConnOpts(false)
-		proposed := co.table().m
+		// knob (own stream): a query-mode initiator. If the responder answers with AcceptVersion
+		// all the same, the rule is unchanged: only a version that was proposed may be settled on
+		co.query = rt.Choose("cfg.x", 4) == 3
+		configured := co.table().m
 		peer := newRawPeer(pair.B)
 		var conn *ouroboros.Connection
 		var cErr error
@@ -117,11 +120,25 @@ func hsAcceptSetup(s *rt.Sim, tier string) func() {
 			}
 			sleep(100 * time.Millisecond)
 		}
+		// "a version number it proposed" is what went over the wire, not what is configured
+		proposed := map[uint16]bool{}
+		for _, k := range wireProposedVersions(peer.stream(0, false)) {
+			proposed[k] = true
+		}
+		if len(proposed) == 0 {
+			rt.Hit("hsaccept.no-proposal-seen")
+			return
+		}
+		for k := range configured {
+			if !proposed[k] {
+				rt.Hit("hsaccept.configured-version-not-proposed")
+			}
+		}
 		// choose the acceptance
 		var v uint16
 		switch pick("op", 10) {
 		case 0, 1, 2, 3:
-			ks := versionKeys(proposed)
+			ks := versionKeys(configured)
 			v = ks[pick("op", len(ks))]
 		case 4, 5, 6:
 			v = oneOf[uint16]("op", 13, 14, 10, 7, 0x8000+16, 0x8000+9, 0x8000+21, 0x1001, 1, 2, 15, 0x8000+12)
@@ -136,7 +153,7 @@ func hsAcceptSetup(s *rt.Sim, tier string) func() {
 		if chance("op", 1, 4) {
 			magic = oneOf[uint32]("op", 1, 2, 42, 764824073, 0)
 		}
-		_, isProposed := proposed[v]
+		isProposed := proposed[v]
 		wantOK := isProposed && shape == specShape(v) && magic == co.magic
 		// shapes NtCNew/NtNOld are byte-identical ([uint, bool]); treat them as one shape
 		if isProposed && magic == co.magic && ((shape == shapeNtCNew && specShape(v) == shapeNtNOld) || (shape == shapeNtNOld && specShape(v) == shapeNtCNew)) {
@@ -156,7 +173,7 @@ func hsAcceptSetup(s *rt.Sim, tier string) func() {
 		for i := 0; i < 1200 && !ret; i++ {
 			sleep(time.Second)
 		}
-		desc := fmt.Sprintf("initiator %+v proposed %v; responder accepted version %d with data shape %d magic %d (field of a wrong CBOR type: %v, data % x)", co, versionKeys(proposed), v, shape, magic, badField, vdata)
+		desc := fmt.Sprintf("initiator %+v proposed %v; responder accepted version %d with data shape %d magic %d (field of a wrong CBOR type: %v, data % x)", co, sortedVersions(proposed), v, shape, magic, badField, vdata)
 		if wantOK {
 			rt.Hit("hsaccept.valid")
 		} else {
@@ -191,4 +208,45 @@ func hsAcceptSetup(s *rt.Sim, tier string) func() {
 			conn.Close()
 		}
 	}
+}
+
+// wireProposedVersions parses MsgProposeVersions ([0, {version: data, ...}]) and
+// returns the version numbers it carries.
+func wireProposedVersions(msg []byte) []uint16 {
+	if len(msg) < 3 || msg[0] != 0x82 || msg[1] != 0x00 {
+		return nil
+	}
+	major, n, hl, ok := cborHead(msg[2:])
+	if !ok || major != 5 {
+		return nil
+	}
+	off := 2 + hl
+	var out []uint16
+	for i := uint64(0); i < n; i++ {
+		m, k, kl, ok := cborHead(msg[off:])
+		if !ok || m != 0 {
+			return out
+		}
+		off += kl
+		out = append(out, uint16(k))
+		l, err := cborItemLen(msg[off:])
+		if err != nil {
+			return out
+		}
+		off += l
+	}
+	return out
+}
+
+func sortedVersions(m map[uint16]bool) []uint16 {
+	var ks []uint16
+	for k := range m {
+		ks = append(ks, k)
+	}
+	for i := 1; i < len(ks); i++ {
+		for j := i; j > 0 && ks[j] < ks[j-1]; j-- {
+			ks[j], ks[j-1] = ks[j-1], ks[j]
+		}
+	}
+	return ks
 }
